@@ -10,6 +10,7 @@ import SfntV.Proofs.T2Loop
 import SfntV.Proofs.T2WF
 import SfntV.Proofs.T2WFCalls
 import SfntV.Proofs.T2End
+import SfntV.Proofs.T2Bridge2
 
 namespace SfntV.Props.C05
 open SfntV SfntV.T2 SfntV.Spec.T2
@@ -323,5 +324,59 @@ example : WF [.int 50, .int 10, .int 20, .op .hstem, .int 1, .int 2, .op .rmovet
     .int 1, .int 2, .int 3, .int 4, .int 5, .op .hvcurveto, .op .endchar] ∧
   Agrees [.int 50, .int 10, .int 20, .op .hstem, .int 1, .int 2, .op .rmoveto, .int 3, .int 4, .op .rlineto,
     .int 1, .int 2, .int 3, .int 4, .int 5, .op .hvcurveto, .op .endchar] := by decide
+
+/-! ### bridge to C04: the decoder model and the specification agree on everything the compiler emits -/
+
+open SfntV.T2Enc in
+/-- `C05_agrees_on_encoder_output` (= `C04_output_quirk_free`): for every well-formed glyph (`GlyphWF`),
+every choice of edge paths and every charstring `bytes` the compiler model `encodeCharString` emits for
+it — header with optional width, stem chunks, the omitted vstemhm before a leading mask, masks, all twelve
+path operator forms, endchar — the model of the Go decoder and the specification interpreter return the
+same result, provided the encoded operands are read back (`CmdDecodes`/`Decodes`: |step| ≤ 32767, finding
+C04-bigstep) and every path delta lies within ±32000 (`CmdBnd`: beyond it the Go decoder clamps, finding
+C05-clamp).  With it the hypothesis "goQuirks = strict on those bytes" of file-level theorems is discharged. -/
+theorem C05_agrees_on_encoder_output (env : Env) (K : Nat) (w : Int) (hs vs : List Int) (cmds : List InCmd)
+    (paths : List (List (Nat × Op))) (bytes : List Nat)
+    (h : encodeCharString K w hs vs cmds env.defaultWidth env.nominalWidth paths = some bytes)
+    (hwf : GlyphWF hs vs cmds = true)
+    (hdec : ∀ c ∈ encodeArgs K cmds, CmdDecodes c) (hbnd : ∀ c ∈ encodeArgs K cmds, CmdBnd c)
+    (hw : w ≠ env.defaultWidth * 2 ^ (K - 16) → Decodes (encNum (w - env.nominalWidth * 2 ^ (K - 16)) K))
+    (hdh : ∀ c ∈ hChunks env K w hs, ∀ a ∈ c, Decodes a)
+    (hdv : ∀ c ∈ vChunks env K w hs vs, ∀ a ∈ c, Decodes a) :
+    T2.interp goQuirks env bytes = Spec.T2.interp env bytes :=
+  agrees_on_encoder_output env K w hs vs cmds paths bytes h hwf hdec hbnd hw hdh hdv
+
+open SfntV.T2Enc in
+/-- the same statement under C04's name -/
+theorem C04_output_quirk_free (env : Env) (K : Nat) (w : Int) (hs vs : List Int) (cmds : List InCmd)
+    (paths : List (List (Nat × Op))) (bytes : List Nat)
+    (h : encodeCharString K w hs vs cmds env.defaultWidth env.nominalWidth paths = some bytes)
+    (hwf : GlyphWF hs vs cmds = true)
+    (hdec : ∀ c ∈ encodeArgs K cmds, CmdDecodes c) (hbnd : ∀ c ∈ encodeArgs K cmds, CmdBnd c)
+    (hw : w ≠ env.defaultWidth * 2 ^ (K - 16) → Decodes (encNum (w - env.nominalWidth * 2 ^ (K - 16)) K))
+    (hdh : ∀ c ∈ hChunks env K w hs, ∀ a ∈ c, Decodes a)
+    (hdv : ∀ c ∈ vChunks env K w hs vs, ∀ a ∈ c, Decodes a) :
+    T2.interp goQuirks env bytes = T2.interp strict env bytes :=
+  agrees_on_encoder_output env K w hs vs cmds paths bytes h hwf hdec hbnd hw hdh hdv
+
+open SfntV.T2Enc in
+/-- `C04_glyph_roundtrip_go`: C04's round trip holds verbatim for the MODEL OF THE GO DECODER: decoding the
+compiled charstring with `decodeCharString`'s model gives the glyph back — every path coordinate, stem edge
+and the width within 2⁻¹⁷ — for well-formed glyphs with steps ≤ 32767 (C04-bigstep) and deltas within
+±32000 (C05-clamp). -/
+theorem C04_glyph_roundtrip_go (env : Env) (K : Nat) (hK : 16 ≤ K) (w : Int) (hs vs : List Int)
+    (cmds : List InCmd) (paths : List (List (Nat × Op))) (bytes : List Nat)
+    (h : encodeCharString K w hs vs cmds env.defaultWidth env.nominalWidth paths = some bytes)
+    (hwf : GlyphWF hs vs cmds = true) (hsteps : stepsSmall K 0 0 cmds = true)
+    (hbnd : ∀ c ∈ encodeArgs K cmds, CmdBnd c)
+    (hw : w ≠ env.defaultWidth * 2 ^ (K - 16) → Small K (w - env.nominalWidth * 2 ^ (K - 16)))
+    (hhs : hStemsSmall env K w hs = true) (hvs : vStemsSmall env K w hs vs = true) :
+    ∃ g, T2.interp goQuirks env bytes = .ok g ∧ CmdsClose K g.cmds cmds ∧
+      CloseList K g.hstem hs ∧ CloseList K g.vstem vs ∧
+      g.hstem = decStems (hChunks env K w hs) ∧ g.vstem = decStems (vChunks env K w hs vs) ∧
+      g.width = (if w = env.defaultWidth * 2 ^ (K - 16) then env.defaultWidth
+        else (encNum (w - env.nominalWidth * 2 ^ (K - 16)) K).val + env.nominalWidth) ∧
+      (w ≠ env.defaultWidth * 2 ^ (K - 16) → Close K g.width w) :=
+  glyph_roundtrip_go env K hK w hs vs cmds paths bytes h hwf hsteps hbnd hw hhs hvs
 
 end SfntV.Props.C05
